@@ -83,6 +83,16 @@ def compare(M, post, pre):
 
 
 def apply_inject(M, api):
+    if isinstance(api, (list, tuple)) and api and api[0] == 'set':
+        M.s[api[1]] = api[2]
+        M.thumb = bool((M.s['cpsr'] >> 5) & 1)
+        return True
+    if api == 'swap_registers':
+        return True                 # a register file replaced by a deep copy of itself is the same register file
+    if api == 'take_data_abort':
+        from vf.ref.machine import Abort
+        M.take_data_abort(Abort('permission', 0, False))
+        return True
     if api == 'take_physical_irq_exception':
         M.take_irq()
     elif api == 'take_physical_fiq_exception':
@@ -141,6 +151,14 @@ def run(case, stop_on=('unpred', 'skip'), quirks=()):
                 if d:
                     res.diffs = d
                     res.status = 'notimpl-state-changed'
+                elif i + 1 < len(posts) and any(int(k_) > i for k_ in inject):
+                    # the embedder caught the error and carries on with this instance (an interrupt is delivered next): the state is what it was
+                    # (fault registers excepted): the reference goes on from armulator's snapshot
+                    M = Machine(post, [tuple(m) for m in case['mems']], cfg, case.get('hooked', False))
+                    M.quirks = frozenset(quirks)
+                    res.M = M
+                    prev = post
+                    continue
             elif excs[i] is None:
                 M2 = Machine(prev, [tuple(m) for m in case['mems']], cfg, case.get('hooked', False))
                 if api:
